@@ -18,7 +18,7 @@ CHECKS = {
    text="evaluate's postcondition outcome == Eval(ast, ...) is discharged at each of its returns with Eval unfolded once at the node: not swaps T/F and passes E, and/or return the left outcome unless it is T (resp. F) and then the right one, so the number and order of recursive evaluations is fixed by the spec; double negation, both De Morgan rewrites and 'an unreached operand's error is not reported' are spec-level lemmas discharged by SMT; termination by decreases on tree size.",
    note=BASE_TRUST + "; wf(ast) (acyclic tree) from the parser.", tech=TECH, ref="DESIGN.md §6 C03"),
  "C04": dict(cat="proof",
-   text="evaluateMatchExpression is verified against EvalMatchP, in which a negated operator is neg3 of its positive form applied to the same arguments, and the absent-key case is Disposition(op); NotPresentDisposition is verified against the table from the property; lemmas: the table, Disposition(negOp(op)) == !Disposition(op), EvalMatchVal(negOp(op)) == neg3(EvalMatchVal(op)), and the complement on absent keys. (The contains==in half lives in the grammar actions, see C15/C20.)",
+   text="evaluateMatchExpression is verified against EvalMatchP, in which a negated operator is neg3 of its positive form applied to the same arguments, and the absent-key case is Disposition(op); NotPresentDisposition is verified against the table from the property; lemmas: the table, Disposition(negOp(op)) == !Disposition(op), EvalMatchVal(negOp(op)) == neg3(EvalMatchVal(op)), and the complement on absent keys. (The contains==in half lives in the grammar actions, see C15/C20.) The function set is the whole evaluation chain from Evaluate down: a step added between the operators and the caller (e.g. post-processing of errors in evaluate()) fails under this check.",
    note=BASE_TRUST + "; A-PS.", tech=TECH, ref="DESIGN.md §6 C04"),
  "C05": dict(cat="proof",
    text="getValue is verified against Resolve/ResolveGlobal: NotFound with an unknown value configured yields that value before any parent test, NotFound with >= 2 parts and a map parent (through pointers: derefValue against derefRV) yields 'absent', every other failure is an error; evaluateNotPresent, the absent branches of evaluateMatchExpression (Disposition) and evaluateCollectionExpression (op == ALL), and the plumbing of the unknown value through Evaluate/WithUnknownValue/getOpts are all under contract; lemmas: the unknown value is unused when the selector resolves, and substitutes exactly when it does not.",
@@ -31,7 +31,7 @@ CHECKS = {
    note=BASE_TRUST + "; A-PS (pointerstructure.Get total), A-OPTS (options come from this package's constructors), wf(ast) supplied by the parser (derived under C10: grammar typing), A-STACK.",
    tech=TECH, ref="DESIGN.md §6 C09"),
  "C14": dict(cat="proof",
-   text="reflect.Value.MapKeys is specified as an arbitrary enumeration (keysOf); the postcondition of evaluateCollectionExpression is stated over sortedKeys(v) and cannot mention the enumeration, so it holds for every map order; the comparison closure passed to sort.Slice is verified to be the string order on the keys. (Filter.Execute over maps: see C17.)",
+   text="reflect.Value.MapKeys is specified as an arbitrary enumeration (keysOf); the postcondition of evaluateCollectionExpression is stated over sortedKeys(v) and cannot mention the enumeration, so it holds for every map order; the comparison closure passed to sort.Slice is verified to be the string order on the keys. Every other function of the evaluation chain and Filter.Execute are part of this check too: their functional postconditions (result == spec function of the arguments, with every map enumeration left arbitrary) are what makes them deterministic - a new dependence on iteration order (e.g. `in` over MapKeys()) fails the function's own post under C14.",
    note=BASE_TRUST + "; A-SORT (sort.Slice sorts).", tech=TECH, ref="DESIGN.md §6 C14"),
  "C18": dict(cat="proof",
    text="Each option closure is verified to implement applyOpt for its constructor and to assign only its own field of *o (located assigns checked by the SSA frame walk); getOpts is verified against the left fold FoldOpts (loop invariant over the processed prefix, nil options skipped); Evaluate is verified to evaluate under exactly (tagName, hook, unknown value) of the evaluator, and every function that carries the option list from there to the pointer lookup (evaluate, evaluateMatchExpression, evaluateCollectionExpression and its closure, getValue, evaluateNotPresent, Filter.Execute) is verified to pass it on unchanged (their posts are stated over the same AOpts); lemmas over applyOpt: distinct constructors commute, the last of equal constructors wins, each touches only its own field, and the neutral settings are no-ops.",
@@ -41,7 +41,7 @@ CHECKS = {
 CHECKS.update({
  "C07": dict(cat="proof",
    text="Evaluator half: an SSA read-frame walk shows that on every function reachable from Evaluate/Execute the field Selector.Type is loaded only inside Selector.String and that Selector.String results flow only into fmt.Errorf, and the evaluator's contracts (getValue against Resolve) mention Selector.Path only - so the outcome cannot depend on the spelling. Parser half: the eight selector-building actions are verified by WP against what they must put into Path (identifier text, text[1:] for .N and /seg, the unquoted string for [..], RFC 6901 decoding through pointerstructure.Parse for the pointer form). Which text reaches which action is A-ENGINE and the grammar's business: a bounded run over all spellings of paths with awkward keys (~0, ~1, zero-padded and non-ASCII numerals, case, unicode), in which every spelling grammar.peg admits must be accepted and evaluate like the bracket spelling, is part of every quick check (labelled bounded, never counted as proved).",
-   note=BASE_TRUST + "; A-PS (Parse decodes RFC 6901; Get matches parts exactly), A-ENGINE.", tech=TECH+" + SSA read-frame walk", ref="DESIGN.md §6 C07"),
+   note=BASE_TRUST + "; A-PS (Parse decodes RFC 6901; Get matches parts exactly), A-ENGINE.", tech=TECH+" + SSA read-frame walk + bounded spelling run against the bracket spelling (stand-in for the text-to-action link)", ref="DESIGN.md §6 C07"),
  "C08": dict(cat="proof",
    text="No channel exists through which struct content reaches an outcome except pointerstructure.Get under the evaluator's tag: (1) an SSA walk over every function reachable from Evaluate/Execute finds no call of Field*/NumField/IsZero/DeepEqual/Equal/fmt.Sprint-style observers; (2) every content observer that is called carries a precondition (discharged by SMT) that excludes kind Struct - Len, Int/Uint/Float/Bool, String (required to be of kind String), Convert, MapIndex, Index; (3) getValue/evaluateNotPresent are verified to pass exactly (tag name, hook) of the evaluator to every Get call. Non-interference then follows on paper from the assumed contract of Get (A-PS).",
    note=BASE_TRUST + "; item (3) of the argument - Get never returns hidden content - is the dependency's (A-PS).", tech=TECH+" + SSA read-discipline walk", ref="DESIGN.md §6 C08"),
